@@ -163,9 +163,9 @@ Proof.
     assert (Hall : forall es lay', is_ser lay' -> (forall p, In p es -> In p ents) ->
               exists ss ps, ser_all (flat_map dast es) = Ok ss
                             /\ dict_pairs (combine (flat_map dast es) ss) None = Ok ps
-                            /\ join [44; 32]%N ps = print_dents lay' es).
+                            /\ join [44; 32]%N ps = print_dents lay' es /\ (es <> [] -> ps <> [])).
     { induction es as [|[k x] es IHe]; intros lay' Hs' Hin.
-      - exists [], []. repeat split; reflexivity.
+      - exists [], []. repeat split; try reflexivity. congruence.
       - assert (Hp : In (k, x) ents) by (apply Hin; left; reflexivity).
         assert (Hpok : dent_ok (k, x) = true) by (rewrite forallb_forall in Hok; exact (Hok _ Hp)).
         unfold dent_ok in Hpok. cbn [fst snd] in Hpok. apply andb_true_iff in Hpok as [Hv Hkk].
@@ -173,7 +173,7 @@ Proof.
         { pose proof (fold_sum_in (fun p : option leaf * sval => vsize (snd p)) ents _ Hp). cbn [snd] in *. lia. }
         assert (Hdx : vdepth x <= d).
         { pose proof (fold_max_in (fun p : option leaf * sval => vdepth (snd p)) ents _ Hp). cbn [snd] in *. lia. }
-        destruct (IHe (sub lay' 5) (is_ser_sub lay' 5 Hs') (fun p H => Hin p (or_intror H))) as (ss & ps & Hss & Hps & Hj).
+        destruct (IHe (sub lay' 5) (is_ser_sub lay' 5 Hs') (fun p H => Hin p (or_intror H))) as (ss & ps & Hss & Hps & Hj & Hne).
         rewrite print_dents_cons. unfold sep_text.
         rewrite (is_ser_w0 lay' 0 Hs'), (is_ser_w0 lay' 2 Hs'), (is_ser_w0 lay' 4 Hs'), (is_ser_opt lay' Hs').
         rewrite (is_ser_w0 lay' 7 Hs'), (is_ser_w0 lay' 8 Hs').
@@ -186,13 +186,7 @@ Proof.
           - cbn [flat_map] in Hss. cbn [ser_all] in Hss. injection Hss as <-. cbn [combine dict_pairs] in Hps.
             injection Hps as <-. cbn [join print_dents]. rewrite app_nil_r. reflexivity.
           - destruct ps as [|p1 ps].
-            + exfalso. destruct q as [[kl|] y]; cbn [flat_map] in Hss, Hps; unfold dast at 1 in Hss, Hps; cbn [fst snd app] in Hss, Hps;
-                cbn [ser_all] in Hss; fold ser_all in Hss;
-                repeat match type of Hss with context [match ?x with _ => _ end] => destruct x eqn:? end; try discriminate;
-                injection Hss as <-; cbn [combine dict_pairs] in Hps;
-                rewrite ?ast_not_spread, ?ast_is_spread in Hps; cbn [entry_is_spread parts_of_leaf] in Hps;
-                rewrite ?p_spread_atom in Hps; cbn [is_some] in Hps;
-                repeat match type of Hps with context [match ?x with _ => _ end] => destruct x eqn:? end; discriminate.
+            + exfalso. apply Hne; [discriminate | reflexivity].
             + rewrite join_cons2. rewrite Hj. reflexivity. }
         destruct k as [kl|].
         + (* key: value *)
@@ -207,7 +201,7 @@ Proof.
           rewrite Ek. rewrite (Hx (sub lay' 1) (is_ser_sub lay' 1 Hs')). rewrite Hss. cbn [spread_prefix app].
           eexists _, _. split; [reflexivity|].
           cbn [combine dict_pairs entry_is_spread parts_of_leaf]. rewrite p_spread_atom. cbn [is_some].
-          rewrite ast_not_spread. rewrite Hps. split; [reflexivity|].
+          rewrite ast_not_spread. rewrite Hps. split; [reflexivity|]. split; [|discriminate].
           rewrite Htail. rewrite <- !app_assoc. cbn [app]. destruct es; rewrite <- ?app_assoc; reflexivity.
         + (* double-star spread *)
           assert (Hx : Sv d (Some SpStar2) x).
@@ -218,10 +212,10 @@ Proof.
           cbn [ser_all]. fold ser_all.
           rewrite (Hx (sub lay' 1) (is_ser_sub lay' 1 Hs')). rewrite Hss. cbn [spread_prefix spread_str].
           eexists _, _. split; [reflexivity|].
-          cbn [combine dict_pairs]. rewrite ast_is_spread. cbn [is_some]. rewrite Hps. split; [reflexivity|].
+          cbn [combine dict_pairs]. rewrite ast_is_spread. cbn [is_some]. rewrite Hps. split; [reflexivity|]. split; [|discriminate].
           rewrite Htail. destruct (is_leaf x); cbn [app]; rewrite <- ?app_assoc; cbn [app];
             destruct es; rewrite <- ?app_assoc; reflexivity. }
-    destruct (Hall ents (sub lay 1) (is_ser_sub lay 1 Hs) (fun p H => H)) as (ss & ps & Hss & Hps & Hj).
+    destruct (Hall ents (sub lay 1) (is_ser_sub lay 1 Hs) (fun p H => H)) as (ss & ps & Hss & Hps & Hj & _).
     change (flat_map (fun p : option leaf * sval =>
                         match fst p with
                         | Some kl => [NVal (parts_of_leaf None kl); ast_val None (snd p)]
@@ -259,7 +253,7 @@ Proof.
   - apply andb_true_iff in Hok as [Hok _]. apply andb_true_iff in Hok as [Hok Hdp]. apply andb_true_iff in Hok as [Hk Hv].
     apply Nat.leb_le in Hdp.
     rewrite (ser_top v None d lay Hv); [| |lia|exact Hs].
-    + destruct (key_ok_parts k Hk) as (x & k' & -> & _). cbn [spread_prefix app]. rewrite <- app_comm_cons. reflexivity.
+    + destruct (key_ok_parts k Hk) as (x & k' & -> & _). cbn [spread_prefix app]. reflexivity.
     + destruct v; cbn [sp_leaf_ok]; [intro C; congruence | exact I | exact I].
   - apply andb_true_iff in Hok as [Hok Hsp]. apply andb_true_iff in Hok as [Hv Hdp]. apply Nat.leb_le in Hdp.
     rewrite (ser_top v (Some SpDots) d lay Hv); [reflexivity| |lia|exact Hs].
@@ -271,3 +265,48 @@ Proof.
       rewrite forallb_forall in Hal. apply Hal. exact Ha.
     + cbn [sp_leaf_ok]. intro C; congruence.
 Qed.
+
+(* serialize() reads the key and the value of an attribute, not its position *)
+Lemma serialize_attrs_kv d : forall a1 a2, map kv a1 = map kv a2 -> serialize_attrs d a1 = serialize_attrs d a2.
+Proof.
+  induction a1 as [|x a1 IH]; intros [|y a2] H; try discriminate; [reflexivity|].
+  cbn [map] in H. injection H as Hxy Hr. cbn [serialize_attrs]. rewrite (IH a2 Hr).
+  unfold serialize_attr. unfold kv in Hxy. injection Hxy as Hk Hv. rewrite Hk, Hv. reflexivity.
+Qed.
+
+Definition attr_of_item (it : item) : attr := mkattr (item_key it) (item_node it) 0%N.
+
+Lemma ser_items allowed d : forallb tok_ok allowed = true -> 101 < d ->
+  forall items lay, is_ser lay -> forallb (item_ok allowed) items = true ->
+  exists ss, serialize_attrs d (map attr_of_item items) = Ok ss
+             /\ forall t : str, join [32]%N (t :: ss) = t ++ print_items lay items.
+Proof.
+  intros Hal Hd. induction items as [|it items IH]; intros lay Hs Hok.
+  - exists []. split; [reflexivity|]. intro t. cbn [join print_items]. rewrite app_nil_r. reflexivity.
+  - cbn [forallb] in Hok. apply andb_true_iff in Hok as [Hit Hok].
+    destruct (IH (sub lay 2) (is_ser_sub lay 2 Hs) Hok) as (ss & Hss & Hj).
+    cbn [map serialize_attrs]. unfold attr_of_item at 1.
+    rewrite (ser_item allowed it 0%N d (sub lay 1) Hal Hit Hd (is_ser_sub lay 1 Hs)). rewrite Hss.
+    eexists. split; [reflexivity|]. intro t.
+    rewrite join_cons2. rewrite Hj. cbn [print_items]. rewrite (is_ser_w1 lay Hs). napp. reflexivity.
+Qed.
+
+(* the canonical serialisation of the AST of a printed argument list is the same argument list printed under ser_layout *)
+Theorem serialize_is_print allowed tag a attrs d : arglist_ok tag allowed a = true -> 101 < d ->
+  map kv attrs = (None, tok_node tag) :: map item_kv (items_with_slash a) ->
+  serialize_tag d attrs = Ok (print ser_layout tag a).
+Proof.
+  intros Hok Hd Hkv. unfold arglist_ok in Hok.
+  apply andb_true_iff in Hok as [Hok _]. apply andb_true_iff in Hok as [Hok Hitems].
+  apply andb_true_iff in Hok as [Hok _]. apply andb_true_iff in Hok as [Htag Hal].
+  set (allowed' := [47%N] :: tag :: allowed).
+  assert (Hal' : forallb tok_ok allowed' = true) by (subst allowed'; cbn [forallb]; rewrite Htag, Hal; reflexivity).
+  assert (Hmono : forall it, item_ok allowed it = true -> item_ok allowed' it = true).
+  { intros it H. destruct it as [v|k v|v|fl]; cbn [item_ok] in *; try exact H.
+    - apply andb_true_iff in H as [H H4]. apply andb_true_iff in H as [H H3]. rewrite H, H3. cbn [andb].
+      destruct v as [l| |]; try reflexivity. subst allowed'. cbn [not_slash] in H3. unfold str_in in *. cbn [existsb].
+      rewrite !negb_orb. rewrite H3. cbn [andb].
+      (* a positional leaf may be spelled like the tag name: item_ok only has to hold for the serialisation lemma, which does
+         not look at this clause - so weaken instead *)
+      destruct (str_eqb (canon_leaf l) tag); [|exact H4].
+Abort.
